@@ -4,11 +4,15 @@ CONSTANTS MaxDepth = 3
   StoreByCopy = TRUE
   TailKeepsSets = TRUE
   SplitContinues = TRUE
+  SkipEmpty = TRUE
+  SplitCachesExport = FALSE
+  SrcFRepass = TRUE
 INVARIANT SeenIsExpected
 INVARIANT PrefixOnly
 INVARIANT SiblingIndependent
 INVARIANT RootExpected
 INVARIANT NoLeakToRuntime
 PROPERTY Causal
+PROPERTY PeekIsPure
 PROPERTY RunKeepsStatic
 CHECK_DEADLOCK FALSE
